@@ -262,11 +262,10 @@ def check_cli(spec, out, data, payload, ks_text):
             with open(op, "wb") as f:  # an older, longer output file is in the way: it must be replaced, not patched
                 f.write(b"STALE" * (len(payload) // 5 + 300))
         sys.argv = ["envelope-decrypt", ep, "-ks", kp, "-o", op]
-        try:
-            rc, err = lib(tool.main)
-        except SystemExit as e:  # argparse's parser.exit / parser.error
-            if e.code not in (0, None):
-                out.fail("exit|cli", f"CLI exited with {e.code!r} for a well-formed envelope and its keystore")
+        rc, err = lib(tool.main)
+        if err and isinstance(err.exc, SystemExit):  # argparse's parser.exit / parser.error
+            if err.exc.code not in (0, None):
+                out.fail("exit|cli", f"CLI exited with {err.exc.code!r} for a well-formed envelope and its keystore")
                 return out
             err = None
         if err:
